@@ -60,6 +60,10 @@ pub fn decode_only() -> Vec<M> {
         M::Node(Box::new(t("s")), vec![M::Node(Box::new(el(&a("p", "o"))), vec![a("q", "r")])]),
         // wrapped elided
         M::Wrapped(Box::new(el(&t("s")))),
+        // an assertion element that is a node whose subject is again a node over an assertion (two levels of decoration; arises from
+        // obscuring a decorated assertion, adding to the obscured form and revealing it again)
+        M::Node(Box::new(t("s")), vec![M::Node(Box::new(M::Node(Box::new(a("p", "o")), vec![a("q", "r")])), vec![a("u", "v")])]),
+        M::Node(Box::new(t("s")), vec![M::Node(Box::new(M::Node(Box::new(el(&a("p", "o"))), vec![a("q", "r")])), vec![a("u", "v")]), a("k", "w")]),
     ]
 }
 pub fn absent_digest() -> D { [0xEE; 32] }
